@@ -398,3 +398,80 @@ func c06AllEntities(x *X, names []string) {
 	x.Outcome(tree.Hash64(name))
 	x.Sample(ent)
 }
+
+// ---- sibling leaves: what one paragraph leaves behind for the next -----------------------
+
+var spLeaf = spaces.Space{Name: "X-leaf", Doc: "one line of inline material: openers and closers of code spans, emphasis, links, raw HTML, a character reference",
+	Tokens: []string{"`", "a", "*", "_", "[", "]", "(u)", "<", ">", "&amp;"}}
+
+func init() { spaces.All = append(spaces.All, spLeaf) }
+
+// plainParagraphLine reports whether the line, on its own and as the first line
+// of a list item or of a block quote, is nothing but a one-line paragraph.
+func plainParagraphLine(l string) bool {
+	if l == "" || strings.TrimSpace(l) != l {
+		return false
+	}
+	if ref.ThematicBreak(l) >= 0 || ref.HTMLBlockStart(l) > 0 || ref.HTMLBlockContested(l) || ref.SetextUnderline(l) > 0 {
+		return false
+	}
+	if _, _, w := ref.ListMarker(l); w >= 0 {
+		return false
+	}
+	if lv, _, _ := ref.ATXHeading(l); lv > 0 {
+		return false
+	}
+	if _, n, _ := ref.CodeFence(l); n > 0 {
+		return false
+	}
+	return l[0] != '>' && l != "*" && l != "_" && !strings.HasPrefix(l, "[")
+}
+
+// c06SiblingLeaves: two one-line paragraphs X and Y as the two items of a tight
+// list, as two paragraphs of one block quote and as two paragraphs of one loose
+// list item. A paragraph's inline content is parsed on its own, so each must
+// render inside the container exactly as it renders as a document of its own
+// (which the other explorations judge): nothing that parsing X's text produced
+// (delimiters, bracket openers, scan results for backtick strings) may affect Y.
+func c06SiblingLeaves(x *X) {
+	xs := string(x.Tokens(spLeaf, 2))
+	ys := string(x.Tokens(spLeaf, 3))
+	if !plainParagraphLine(xs) || !plainParagraphLine(ys) {
+		x.Count("sibling_leaves_skipped_not_plain_paragraph_lines")
+		return
+	}
+	inner := func(s string) (string, bool) {
+		b, r := cm.Parse([]byte(s + "\n"))
+		if len(b) != 1 || b[0].Kind() != cm.ParagraphKind {
+			return "", false
+		}
+		h := renderCfg(b, r, cm.SoftBreakPreserve, false)
+		return strings.TrimSuffix(strings.TrimPrefix(h, "<p>"), "</p>"), true
+	}
+	hx, ok1 := inner(xs)
+	hy, ok2 := inner(ys)
+	if !ok1 || !ok2 {
+		x.Fail("sibling-leaves-not-a-paragraph", "", []byte(xs+"\n\n"+ys), "%q or %q is a plain paragraph line by the block rules but does not parse to one paragraph", xs, ys)
+		return
+	}
+	ctxs := []struct{ name, doc, want string }{
+		{"tight-list", "- " + xs + "\n- " + ys + "\n", "<ul><li>" + hx + "</li><li>" + hy + "</li></ul>"},
+		{"quote", "> " + xs + "\n>\n> " + ys + "\n", "<blockquote><p>" + hx + "</p><p>" + hy + "</p></blockquote>"},
+		{"loose-item", "1. " + xs + "\n\n   " + ys + "\n", "<ol><li><p>" + hx + "</p><p>" + hy + "</p></li></ol>"},
+	}
+	for _, cx := range ctxs {
+		in := []byte(cx.doc)
+		b, r := cm.Parse(clone(in))
+		got := ref.Norm(renderCfg(b, r, cm.SoftBreakPreserve, false))
+		x.Validated()
+		if want := ref.Norm(cx.want); got != want {
+			x.Fail("sibling-leaves-differ", cx.name, in, "%q renders (normalized) %q; its two paragraphs on their own render %q and %q, so the container must give %q", cx.doc, got, hx, hy, want)
+			return
+		}
+	}
+	if hx != xs || hy != ys {
+		x.Nontrivial()
+	}
+	x.Outcome(tree.Hash64(hx + "\x00" + hy))
+	x.Sample(fmt.Sprintf("%q | %q", xs, ys))
+}
